@@ -8,7 +8,7 @@ from ..core.exprnf import NF, parse_expr
 from ..core.astutil import u
 
 META = {
-    "explanation": "R10a: every attribute use and call EventKernel.__init__/event makes on a pluggable component is bound "
+    "explanation": "R10k (pointed) the index filing per-antenna ray paths and polarizations enumerates all of self.antennas, never a filtered subsequence.  R10a: every attribute use and call EventKernel.__init__/event makes on a pluggable component is bound "
                    "statically (Signature.bind on the syntax trees) against every shipped member of that component's family "
                    "(tracers, paths, Askaryan models, antennas, generators, ice models, writers), plus the tracers' own "
                    "constructor calls of their solution_class -- the whole cross-product of the property's quantifier, incl. "
@@ -410,6 +410,48 @@ def r10e(ctx):
               ast.unparse(first), key_detail="event source")
 
 
+def r10k(ctx):
+    """Pointed: the per-antenna result lists are positional in self.antennas; an index that counts a *filtered* sequence of antennas files an antenna's
+    paths under another antenna's slot as soon as one antenna has no solution.  Read off the loop header and the binding of its sequence."""
+    repo = ctx.repo
+    ctx.rule("R10k", "the index that files ray paths / polarizations per antenna enumerates all of self.antennas, never a filtered subsequence", expected=1, kind="N")
+    fn = repo.member(K, "event")
+    binds = {}
+    for n in ast.walk(fn):
+        if isinstance(n, ast.Assign) and len(n.targets) == 1 and isinstance(n.targets[0], ast.Name):
+            binds.setdefault(n.targets[0].id, []).append(n.value)
+    seen = 0
+    for lp in [n for n in ast.walk(fn) if isinstance(n, ast.For)]:
+        it = lp.iter
+        if not (isinstance(it, ast.Call) and u(it.func) == "enumerate" and it.args and isinstance(lp.target, ast.Tuple) and isinstance(lp.target.elts[0], ast.Name)):
+            continue
+        idx = lp.target.elts[0].id
+        slots = sorted({u(x.value) for x in ast.walk(lp) if isinstance(x, ast.Subscript) and isinstance(x.value, ast.Name) and x.value.id in ("ray_paths", "polarizations")
+                        and isinstance(x.slice, ast.Name) and x.slice.id == idx})
+        if not slots:
+            continue
+        seen += 1
+        seq = it.args[0]
+        k = 0
+        while isinstance(seq, ast.Name) and len(binds.get(seq.id, [])) == 1 and k < 4:
+            seq = binds[seq.id][0]
+            k += 1
+        filtered = (isinstance(seq, (ast.ListComp, ast.GeneratorExp)) and any(g.ifs for g in seq.generators)) or (isinstance(seq, ast.Call) and u(seq.func) in ("filter", "itertools.compress", "compress"))
+        if isinstance(seq, ast.Call) and u(seq.func) in ("list", "tuple") and seq.args:
+            inner = seq.args[0]
+            filtered = filtered or (isinstance(inner, (ast.ListComp, ast.GeneratorExp)) and any(g.ifs for g in inner.generators)) or (isinstance(inner, ast.Call) and u(inner.func) == "filter")
+        if filtered:
+            ctx.bad("R10k", f"{K}.event", f"`{idx}` indexes {', '.join(slots)} by position in self.antennas",
+                    f"`for {u(lp.target)} in {u(it)[:80]}` counts a filtered sequence ({u(seq)[:100]}): after the first antenna that is left out every later antenna is filed one slot early",
+                    key_detail="index over filtered antennas", loc=ctx.loc("pyrex.kernel", lp), pointed=True)
+        elif "self.antennas" in u(seq):
+            ctx.ok("R10k", f"{K}.event", f"`{idx}` enumerates {u(seq)[:60]}", loc=ctx.loc("pyrex.kernel", lp))
+        else:
+            ctx.unknown("R10k", f"{K}.event", f"`{idx}` enumerates all of self.antennas", f"sequence {u(seq)[:80]} not read", required=False, loc=ctx.loc("pyrex.kernel", lp))
+    if not seen:
+        ctx.unknown("R10k", f"{K}.event", "an enumerate loop that files per-antenna results", "none found", required=False)
+
+
 def r10f(ctx):
     repo = ctx.repo
     ctx.rule("R10f", "the off-cone cut compares the viewing angle with the Cherenkov angle of the ice *at the particle's vertex*: arccos(1 / ice.index(vertex depth))", expected=1, kind="N")
@@ -427,16 +469,23 @@ def r10f(ctx):
 def run(ctx):
     fam = families(ctx.repo, ctx.tier)
     ctx.analysed["families"] = {k: [c.qual for c in v] for k, v in fam.items()}
-    ctx.guard(r10a, fam)
-    ctx.guard(r10b)
-    ctx.guard(r10c)
-    ctx.guard(r10d)
-    ctx.guard(r10e)
-    ctx.guard(r10f)
+    ctx.guard(r10k)         # pointed: reads its own statements, so it runs before the rules that need the confirmed loop shape
+    pointed = bool(ctx.violations())
+    for rule, args in ((r10a, (fam,)), (r10b, ()), (r10c, ()), (r10d, ()), (r10e, ()), (r10f, ())):
+        try:
+            ctx.guard(rule, *args)
+        except AnalysisError as e:
+            if not pointed:
+                raise
+            # a pointed finding stands on its own: the vanished anchor of a shape rule is recorded as undecided instead of hiding it
+            ctx.unknown(rule.__name__.upper(), f"{K}.event", "the rule finds its anchor", str(e), required=True)
 
 
 SELFTEST = {
     "faults": [
+        {"name": "antenna index counts only the reachable antennas", "file": "pyrex/kernel.py",
+         "old": "            for i, ant in enumerate(self.antennas):\n",
+         "new": "            near = [a for a in self.antennas if a.position[2] <= 0]\n            for i, ant in enumerate(near):\n", "rule": "R10k"},
         {"name": "scalar weight cut recomputed from the component weights (generic dropped-read rule)", "file": "pyrex/kernel.py",
          "old": "            elif particle.weight<self.weight_min:", "new": "            elif particle.survival_weight*particle.interaction_weight<self.weight_min:", "rule": "R10v"},
         {"name": "Cherenkov angle from the tracer's lower endpoint", "file": "pyrex/kernel.py", "old": "theta_c = np.arccos(1/self.ice.index(particle.vertex[2]))",
